@@ -25,6 +25,10 @@ pub struct HistCfg {
     pub fixed_ops: Option<Vec<VOp>>,
     /// check the on-disk page index after every write (C07)
     pub check_pages: bool,
+    /// after these operation indices (committed states) run the change-file fault phase (C16)
+    pub fault_every: usize,
+    /// compare the change-directory listing with the model after every commit (C16)
+    pub check_files: bool,
 }
 
 impl Default for HistCfg {
@@ -40,6 +44,8 @@ impl Default for HistCfg {
             allow_reset: true,
             fixed_ops: None,
             check_pages: false,
+            fault_every: 0,
+            check_files: false,
         }
     }
 }
@@ -111,6 +117,33 @@ pub fn run_vec_history<V: VecLike>(rng: &mut Rng, cfg: &HistCfg) -> VecOutcome {
                 break;
             }
             ex.stats.bump("pages:index_checked");
+        }
+        if cfg.check_files && matches!(op, VOp::Commit(_)) {
+            let on_disk = ex.change_files();
+            let want: BTreeSet<u64> = ex.model.files.keys().copied().collect();
+            ex.stats.bump("files:listings_checked");
+            if on_disk != want {
+                out.failed_at = Some((out.ops.len() - 1, VMismatch { sig: "change-dir|listing".into(), what: format!("change directory holds records {:?}, the retention rule (k = {}) allows exactly {:?}", on_disk, cfg.keep, want) }));
+                break;
+            }
+        }
+        if cfg.fault_every > 0 && ex.last_op_committed && ex.model.undo_depth() > 0 && (out.ops.len() % cfg.fault_every == 0 || i + 1 == n) {
+            match crate::c_fault::fault_phase(&mut ex, rng, 600) {
+                Ok(st) => {
+                    ex.stats.add("fault:injected", st.faults);
+                    ex.stats.bump("fault:phases");
+                    for (k, v) in st.by_kind {
+                        ex.stats.add(&format!("fault:kind:{k}"), v);
+                    }
+                    for (k, v) in st.error_kinds {
+                        ex.stats.add(&format!("fault:error:{k}"), v);
+                    }
+                }
+                Err(m) => {
+                    out.failed_at = Some((out.ops.len() - 1, m));
+                    break;
+                }
+            }
         }
         if let Some(p) = &cfg.probe
             && (i % p.every == p.every - 1 || i + 1 == n)
@@ -273,7 +306,7 @@ pub fn vec_campaign(
             let family = if o.format.contains("Bytes") || o.format.contains("ZeroCopy") { "raw" } else { "compressed" };
             let sig = format!("{sig_prefix}|{family}|{}", m.sig);
             let ops = &o.ops[..=at.min(o.ops.len().saturating_sub(1))];
-            let small = if report.is_known(&sig) { ops.to_vec() } else { shrink_vec(runner, cfg, ops, &m.sig, 120) };
+            let small = if report.should_shrink(&sig) { shrink_vec(runner, cfg, ops, &m.sig, 120) } else { ops.to_vec() };
             report.violation(
                 ctx,
                 Violation {
@@ -314,9 +347,14 @@ pub fn vec_campaign(
             h += 1;
             let Some(cfg) = make_cfg(&mut rng, name) else { continue };
             let o = runner(&mut rng, &cfg);
-            let failed = o.failed_at.is_some();
+            if let Some((_, m)) = &o.failed_at {
+                let family = if o.format.contains("Bytes") || o.format.contains("ZeroCopy") { "raw" } else { "compressed" };
+                if !report.is_known(&format!("{sig_prefix}|{family}|{}", m.sig)) {
+                    report.note_failure();
+                }
+            }
             outs.push((h, o, cfg, runner));
-            if failed && report.violation_count() > 8 {
+            if report.failures_seen() >= 8 {
                 break;
             }
         }
@@ -819,4 +857,60 @@ pub fn check_c13(ctx: &Ctx) -> i32 {
         "layout_states_walked": raw.stats.get("layout:states_walked"),
     });
     report.finish(ctx, "exploration", coverage, &["refusals are issued in states reached by the C01/C03/C04 generators; I/O errors of the environment are not injected"])
+}
+
+// ---------------------------------------------------------------------------------------------
+// C16: retention bound, pruning, and refusal on missing / truncated / malformed records
+// ---------------------------------------------------------------------------------------------
+
+pub fn check_c16(ctx: &Ctx) -> i32 {
+    let report = Report::new("C16");
+    let make = |rng: &mut Rng, name: &'static str| {
+        if name.starts_with("Eager") && rng.chance(2, 3) {
+            return None;
+        }
+        Some(HistCfg {
+            nops: rng.range(12, 60),
+            rollback: true,
+            keep: *rng.pick(&[0u16, 1, 1, 2, 2, 3, 5]),
+            allow_reset: rng.chance(1, 6),
+            big_pushes: rng.chance(1, 4),
+            fault_every: rng.range(3, 9),
+            check_files: true,
+            ..HistCfg::default()
+        })
+    };
+    let base = HistCfg { rollback: true, allow_reset: false, check_files: true, fault_every: 1, ..HistCfg::default() };
+    let directed = vec![
+        // retention k: exactly min(k, commits) rollbacks
+        (vec![VOp::Push(3), VOp::Commit(1), VOp::Push(3), VOp::Commit(2), VOp::Push(3), VOp::Commit(3), VOp::Push(3), VOp::Commit(4), VOp::Rollback, VOp::Rollback, VOp::Rollback, VOp::Rollback, VOp::Rollback], HistCfg { keep: 2, ..base.clone() }),
+        (vec![VOp::Push(3), VOp::Commit(1), VOp::Rollback, VOp::Rollback, VOp::Push(1), VOp::Commit(5), VOp::Commit(9), VOp::RollbackBefore(0)], HistCfg { keep: 1, ..base.clone() }),
+        (vec![VOp::Push(3), VOp::Commit(1), VOp::Rollback, VOp::Push(1), VOp::Commit(2)], HistCfg { keep: 0, ..base.clone() }),
+        // abandoned future: re-commit a used stamp / a higher stamp after rollback
+        (vec![VOp::Push(2), VOp::Commit(1), VOp::Push(2), VOp::Commit(2), VOp::Push(2), VOp::Commit(3), VOp::RollbackBefore(2), VOp::Push(1), VOp::Commit(2), VOp::Push(1), VOp::Commit(4), VOp::Rollback, VOp::Rollback, VOp::Rollback, VOp::Rollback], HistCfg { keep: 5, ..base.clone() }),
+        // records with every section populated (truncation + pushes + updates + holes)
+        (vec![VOp::Push(12), VOp::Commit(1), VOp::Update(2), VOp::Delete(4), VOp::Truncate(9), VOp::Push(2), VOp::Commit(2), VOp::Fill, VOp::Update(1), VOp::Truncate(5), VOp::Push(3), VOp::Commit(3), VOp::Rollback, VOp::Rollback], HistCfg { keep: 3, ..base.clone() }),
+    ];
+    let c = vec_campaign(ctx, &report, ctx.secs(35.0, 330.0), 16, "C16", &make, &directed);
+    let injected = c.stats.get("fault:injected");
+    if injected == 0 {
+        report.harness_error("no fault was injected");
+    }
+    if c.stats.get("files:listings_checked") == 0 {
+        report.harness_error("the change directory was never listed");
+    }
+    let coverage = json!({
+        "evaluations": injected + c.stats.get("op:rollback") + c.stats.get("op:rollback_before"),
+        "distinct_nontrivial": c.nontrivial.len(),
+        "rule": "one evaluation = one rollback attempt: either a rollback / rollback_before inside a commit history with retention k in {0,1,2,3,5} (the model's commit chain and record set predict Ok or refusal for each, so exactly min(k, commits) consecutive rollbacks succeed), or a rollback() on a record carrying one injected fault - record deleted; truncated at every byte offset (records <= 600 bytes: all offsets; larger: the first 200, the last 64, 10 offsets around every length field and 64 random ones); each length field (prev_stored_len, stored_len, truncated, prev_pushed_len, pushed_len, modified_len, prev_holes_len) overwritten with true+1, 2^32, 2^40, 2^63, u64::MAX - which must fail and leave regions, change directory and the vector's view byte-identical (or, if accepted, produce exactly the previous committed state); plus rollback_before(0) across a truncated older record, which must fail and rest on the committed state it had reached. After every commit the directory listing must equal the record set the retention rule allows. distinct_nontrivial = distinct histories (hash of vector type + op list) with >=4 op kinds and >=2 classified writes",
+        "samples": c.samples,
+        "faults_injected": injected,
+        "fault_phases": c.stats.get("fault:phases"),
+        "faults_by_kind": api_json(&c.stats, "fault:kind:"),
+        "error_kinds_seen": api_json(&c.stats, "fault:error:"),
+        "directory_listings_checked": c.stats.get("files:listings_checked"),
+        "ops_by_kind": ops_by_kind(&c.stats),
+        "histories": c.histories,
+    });
+    report.finish(ctx, "fault_enumeration", coverage, &["single-file faults only (one damaged record at a time); the file system itself is not faulted", "rollbacks are issued from committed states"])
 }
